@@ -21,6 +21,7 @@ type Plan struct {
 	Broker  BrokerPlan   `json:"broker"`
 	SGW     *SGWPlan     `json:"sgw,omitempty"` // scripted gateway (real clients dial it instead of the real gateway)
 	TX      *TXPlan      `json:"tx,omitempty"`  // direct transaction / id-sequence workloads
+	CLI     *CLIPlan     `json:"cli,omitempty"` // a command-line tool run through Application.Run
 
 	Note string `json:"note,omitempty"`
 }
